@@ -37,7 +37,14 @@ def run(prog, tier) -> Result:
     cr = CaseRunner(prog, res, max_depth=8 if tier == "quick" else 12)
     Q = lambda n: prog.method("Quantity", n)
 
+    absent = 0
     for name, sign in (("__add__", 1), ("__radd__", 1), ("__sub__", -1)):
+        if name == "__radd__" and prog.lookup(prog.cls("Quantity"), name) is None:
+            # no reflected operator: number + quantity is a TypeError by the operator protocol, quantity + quantity
+            # never consults it
+            res.notes.append("Quantity defines no __radd__: the reflected sum is a TypeError by the operator protocol")
+            absent += 1
+            continue
         fi = Q(name)
         for fl in ("ref", "ref+quantum", "money"):
             cr.run("R03.2", fi, f"{name} same type [{fl}]", two_qty_same_type(fl), judge_addsub(sign, fl),
@@ -51,13 +58,17 @@ def run(prog, tier) -> Result:
             # money reaches the operator through its own class (an override there is what runs)
             cr.run("R03.1", fi, f"{name} {lbl} [money]", qty_and_value("money", mk), judge_notimpl, flag_kinds=(),
                    site=f"Quantity.{name}")
-    fi = Q("__rsub__")
-    for fl2 in (None, "money"):
-        cr.run("R03.1", fi, f"__rsub__ quantity [{fl2 or 'any'}]", two_qty_other_type("ref", fl2),
-               lambda o: expect_raise(o, ["IncompatibleUnitsError"]))
-    for lbl, mk in other_values():
-        cr.run("R03.1", fi, f"__rsub__ {lbl}", qty_and_value("ref", mk), judge_notimpl, flag_kinds=())
-        cr.run("R03.1", fi, f"__rsub__ {lbl} [money]", qty_and_value("money", mk), judge_notimpl, flag_kinds=())
+    if prog.lookup(prog.cls("Quantity"), "__rsub__") is None:
+        res.notes.append("Quantity defines no __rsub__: the reflected difference is a TypeError by the operator protocol")
+        absent += 1
+    else:
+        fi = Q("__rsub__")
+        for fl2 in (None, "money"):
+            cr.run("R03.1", fi, f"__rsub__ quantity [{fl2 or 'any'}]", two_qty_other_type("ref", fl2),
+                   lambda o: expect_raise(o, ["IncompatibleUnitsError"]))
+        for lbl, mk in other_values():
+            cr.run("R03.1", fi, f"__rsub__ {lbl}", qty_and_value("ref", mk), judge_notimpl, flag_kinds=())
+            cr.run("R03.1", fi, f"__rsub__ {lbl} [money]", qty_and_value("money", mk), judge_notimpl, flag_kinds=())
 
     # comparisons: error classes and "no value"
     for name in ("__lt__", "__le__", "__gt__", "__ge__"):
@@ -132,7 +143,7 @@ def run(prog, tier) -> Result:
     sum_case([x, y], s0, s0.rf + x.rf + y.rf, "two items with start")
     sum_case([], s0, s0.rf, "empty with start")
 
-    res.require("R03.1", 60)
-    res.require("R03.2", 18)
+    res.require("R03.1", 60 - 12 * absent)
+    res.require("R03.2", 18 - 3 * min(absent, 1))
     res.require("R03.3", 5)
     return res
